@@ -258,6 +258,13 @@ func genSCase(r *Rng, w *CaseWriter, k int) {
 	if in(d.G, "Log", "Sqrt", "Pow") && r.Intn(2) == 0 {
 		specs[1].V = JF(math.Abs(float64(specs[1].V)) + 0.5)
 	}
+	// equal values in distinct registers: the boundary of Greater/Smaller/Min/Max/LogAdd's swap
+	if len(specs) >= 3 && r.Intn(4) == 0 {
+		specs[2].V = specs[1].V
+	}
+	if len(specs) >= 2 && d.Pred && r.Intn(4) == 0 {
+		specs[1].V = specs[0].V
+	}
 	// aliasing: receiver = operand, operand = operand
 	for i := 1; i < len(ids); i++ {
 		if r.Intn(5) == 0 {
@@ -469,13 +476,23 @@ func genVCase(r *Rng, w *CaseWriter, k int) {
 	nvec := 1 + d.NV
 	handles := make([]int, nvec)
 	var contents [][]int64
+	// aliasing pattern first: slot i shares the vector of an earlier slot
+	slot := make([]int, nvec)
+	for i := range slot {
+		slot[i] = i
+		if i > 0 && r.Intn(5) == 0 {
+			slot[i] = slot[r.Intn(i)]
+		}
+	}
+	if d.G == "VdivV" && slot[1] == 0 && slot[2] != 0 {
+		slot[1] = 1 // the receiver as dividend of another divisor would need inexact float quotients
+	}
+	isDivisor := func(i int) bool { return d.G == "VdivV" && slot[2] == i }
 	for i := 0; i < nvec; i++ {
 		handles[i] = -1
-		if i > 0 && r.Intn(5) == 0 {
-			handles[i] = handles[r.Intn(i)]
-			if handles[i] >= 0 {
-				continue
-			}
+		if slot[i] != i {
+			handles[i] = handles[slot[i]]
+			continue
 		}
 		l, _ := pattern(r, n)
 		dim := n
@@ -483,13 +500,12 @@ func genVCase(r *Rng, w *CaseWriter, k int) {
 			dim = n + 1
 			l = append(l, 0)
 		}
-		if d.G == "VdivV" && i == 2 {
+		if isDivisor(i) {
 			// divisors: small, some zero
 			for j := range l {
-				l[j] = []int64{1, -1, 2, -2, 1, 0}[r.Intn(6)]
+				l[j] = []int64{1, -1, 2, -2, 3, 0}[r.Intn(6)]
 			}
-		}
-		if div && i <= 1 {
+		} else if div {
 			for j := range l {
 				l[j] *= 6 // exact float quotients for the divisors 1, -1, 2, -2, 3
 			}
